@@ -245,10 +245,11 @@ def gen_scalar_program(rng, i, jit):
     finish_program(rng, prog, e_txt, declared)
     fr = not top_cmp and not indexed_var and X.in_diff_fragment(prog["ast"]) and not voc.ufuncs
     prog["diff"] = [l[0] for l in sig if l[0] in variables] if fr else []
-    # parse_number knows neither user functions nor the heaviside substitution nor indexed symbols
+    # parse_number is plain sympy: it knows neither user functions nor py-pde's special functions
+    # (heaviside substitution, hypot) nor indexed symbols
     kinds_ = X.kinds(prog["ast"])
     prog["parse_number"] = (not voc.ufuncs and not prog["indexed"] and not array_consts and not sig_none and
-                            not (kinds_ & {"heav1", "heav2", "idx"}) and not any(k.startswith("cmp") for k in kinds_)
+                            not (kinds_ & {"heav1", "heav2", "idx", "call2:hypot"}) and not any(k.startswith("cmp") for k in kinds_)
                             and not (set(names) & RESERVED) and rng.random() < 0.5
                             and not any(_sympy_knows(nm) for nm in X.symbols(prog["ast"])))
     return prog
